@@ -670,9 +670,10 @@ func cmdDel(args *skel.CmdArgs) error {
 	if err != nil {
 		if errors.Is(err, errPodNotFound) {
 			// During parallel CNI DEL calls (e.g., live migration), the pod may already
-			// be deleted by the time we look it up.
-			logger.Info("Pod already deleted, nothing to clean up for CNI DEL")
-			return nil
+			// be deleted by the time we look it up.  Without the pod we cannot derive a
+			// VM-based handle, but addresses held under the container's own handles must
+			// still be released (releasing a handle that does not exist is a no-op).
+			logger.Info("Pod already deleted, releasing by container handle only")
 		} else {
 			return fmt.Errorf("failed to get VMI info: %w", err)
 		}
